@@ -15,10 +15,10 @@ def run(m, chk):
     chk.explanation = (
         "Static discharge of structural clauses of C17: neither operand of | and & is modified and the result is a fresh object (PURE / FRESH), "
         "the limits comparison raising ValueError dominates the computation in ImmutableKnotVector.__or__/__and__ (GATE), and the result depends on both operands (DEP-MAY). "
-        "That | is the common refinement is not decided (and is false for different degrees, DESIGN §5)."
+        "That | is the coarsest common refinement is not decided beyond UNION-DEGREE (DESIGN §24)."
     )
-    chk.decides = ["COMMIT-LAST (a refused |= / &= leaves the receiver as it was)", "NEG-ZERO-SLICE", "PURE", "FRESH", "GATE(limits ⇒ ValueError)", "DEP-MAY both operands", 'BOTH-MULTS (multiplicities of both operands consulted)', 'MULT-KEEP', 'SAME-INTERVAL (the interval guard is an equality, not a one-sided containment)']
-    chk.not_decided = ["U|V is the coarsest common refinement (wrong for different degrees — out of static reach)", "commutativity / idempotence as values"]
+    chk.decides = ["UNION-DEGREE (U | V compares multiplicities written in the common degree max(p, q))", "COMMIT-LAST (a refused |= / &= leaves the receiver as it was)", "NEG-ZERO-SLICE", "PURE", "FRESH", "GATE(limits ⇒ ValueError)", "DEP-MAY both operands", 'BOTH-MULTS (multiplicities of both operands consulted)', 'MULT-KEEP', 'SAME-INTERVAL (the interval guard is an equality, not a one-sided containment)']
+    chk.not_decided = ["U|V is the coarsest common refinement (only the necessary condition UNION-DEGREE is decided)", "commutativity / idempotence as values"]
     for q in (KV + ".__or__", KV + ".__and__", IKV + ".__or__", IKV + ".__and__"):
         r.pure("PURE", q, ["self", "other"])
     for q in (KV + ".__ior__", KV + ".__iand__"):
@@ -53,6 +53,9 @@ def run(m, chk):
             ok = not miss
             chk.ob("DEP-MAY", f"{q}: result at line {ctx.cfg.nodes[nid].ast.lineno} depends on both operands", ok, loc=r.loc(ctx, ctx.cfg.nodes[nid].ast),
                    detail="" if ok else f"{q}: the vector returned at {r.loc(ctx, ctx.cfg.nodes[nid].ast)} does not depend on {', '.join(miss)}", func=q, construct=f"result ignores {', '.join(miss)}")
+    from .extra import union_degree
+
+    union_degree(r, chk)
     from .extra import both_mults, mult_keep
 
     both_mults(r, chk, IKV + ".__or__")
